@@ -69,7 +69,7 @@ def gen_cases(model_cases, tier, seed):
                 klen = rng.choice(SECRET_LENS) if rng.random() < 0.6 else rng.randint(0, 200)
                 secret = bytes(rng.getrandbits(8) for _ in range(klen))
                 rr = 0 if r == 0 else (step - 1 if r == S - 1 else rng.randint(1, step - 2))
-                for base in ((0,) if (rep % 2 == 0) else (rng.randint(10 ** 6, 1_700_000_000 // step),)):
+                for base in ((0,) if (rep % 2 == 0) else (rng.randint(min(10 ** 6, 1_700_000_000 // step // 2), 1_700_000_000 // step),)):
                     counter = base + q
                     tt = counter * step + rr
                     if tt > 2_100_000_000:
